@@ -42,6 +42,10 @@ import (
 // the requested size" and "never drops or reorders a transaction that did not fit"): an oversized transaction must
 // never be released and nothing may overtake it; a sequencer that stays stuck on it forever violates no stated clause.
 //
+// Part 2 (crowded_test.go): DA heights with more transactions than one retrieval batch of types.RetrieveWithHelpers
+// (N around every multiple of the measured batch size, alone and between small heights), limits that cut such a
+// height into carry-overs, one retrieval error at every DA operation and one restart before every call.
+//
 // Observation (not a clause of C20): GetNextBatch answers (nil, nil) when it has nothing; the block manager
 // (block/manager.go retrieveBatch) tolerates a nil response, so this is counted in the evidence but not reported.
 
@@ -558,6 +562,8 @@ type replay struct {
 	Drift uint64   `json:"drift"`
 	Hist  []int    `json:"hist"`
 	Trace []string `json:"trace,omitempty"`
+	// part 2 (crowded DA heights): if set, the other fields are unused
+	Crowded *bigSpec `json:"crowded,omitempty"`
 }
 
 type result struct {
@@ -767,12 +773,16 @@ func TestCheck(t *testing.T) {
 		"the caller passes LastBatchData = BatchData of its previous non-nil answer and keeps it across a sequencer restart (block/manager.go retrieveBatch persists it)",
 		"one MaxBytes value per configuration (the block manager always passes the same value)",
 		"a limit smaller than a transaction: the transaction must never be released and never be overtaken; staying stuck on it is not a violation",
+		"part 2 (crowded heights): the DA double is read through the real types.RetrieveWithHelpers (the sequencer calls it itself); the retrieval batch size is measured from the double's call log, not assumed; an injected failure of a listing call or of a blob-fetch call is a legitimate DA error (the sequencer may answer with an error or with what it has, and must retry the height)",
+		"part 2: clause batch-data-ids reads 'releases the transactions found on the DA layer' as: the BatchData entry that accompanies a released transaction is that transaction's DA id (the block manager hands BatchData back as LastBatchData and to VerifyBatch)",
 	}
 
 	if r.ReplayPath() != "" {
 		var rp replay
 		if _, err := r.LoadReplay(&rp); err != nil {
 			r.EngineError(err.Error())
+		} else if rp.Crowded != nil {
+			replayCrowded(r, rp.Crowded)
 		} else {
 			cf := &config{c: mkContent(rp.Sizes), limit: rp.Limit, drift: rp.Drift}
 			// replay every prefix so that clauses that fired earlier are shown too
@@ -801,6 +811,10 @@ func TestCheck(t *testing.T) {
 	}
 
 	sampled := ""
+	if os.Getenv("C20_PART") == "2" { // development aid: part 2 only (reported as a cap)
+		sampled = "C20_PART=2: part 1 was not run"
+		cfgs = nil
+	}
 	if n, _ := strconv.Atoi(os.Getenv("C20_SAMPLE")); n > 1 { // development aid: every n-th configuration only (reported as a cap)
 		sampled = fmt.Sprintf("C20_SAMPLE=%d: only every %d-th of %d configurations was explored", n, n, len(cfgs))
 		var sub []*config
@@ -926,19 +940,38 @@ func TestCheck(t *testing.T) {
 	if sampled != "" {
 		caps = append(caps, sampled)
 	}
+	// part 2: crowded DA heights (crowded_test.go)
+	p2 := runCrowdedPart(r, vf.Pick(r, 50*time.Second, 10*time.Minute))
+	for k := range p2.patterns {
+		r.Outcome(k)
+	}
+	caps = append(caps, p2.caps...)
+	for k, n := range p2.byClass {
+		byClass["crowded: "+k] += n
+	}
 	if cfgCapped > 0 || cfgSkipped > 0 {
 		caps = append(caps, fmt.Sprintf("deadline %s: %d configurations completed to depth %d, %d cut short, %d not started", deadline, cfgDone, depth, cfgCapped, cfgSkipped))
 	}
 	r.Finish(vf.Coverage{
-		Evaluations: executions, DistinctNontrivial: states, States: states, Transitions: transitions,
-		Rule:       "for every configuration (DA contents × MaxBytes × maxHeightDrift) every history over {GetNextBatch with the manager's cursor, tip+1, fail the next DA retrieval, restart on the datastore image} up to the depth bound, each executed from scratch on a fresh real based.Sequencer (plus, when it contains restarts, the same history without them) and followed by a drain (further calls until nothing new comes) that decides omission; histories are merged when the live carry-over queue, the datastore image, the cursor, the tip, the armed error and the oracle's memory (released set, handed-over set, feature flags, clauses already violated) agree — the sequencer has no other state; distinct = distinct merged states summed over configurations",
+		Evaluations: executions + p2.runs + p2.merged + p2.diverged, DistinctNontrivial: states + int64(len(p2.patterns)), States: states, Transitions: transitions,
+		Rule:       "for every configuration (DA contents × MaxBytes × maxHeightDrift) every history over {GetNextBatch with the manager's cursor, tip+1, fail the next DA retrieval, restart on the datastore image} up to the depth bound, each executed from scratch on a fresh real based.Sequencer (plus, when it contains restarts, the same history without them) and followed by a drain (further calls until nothing new comes) that decides omission; histories are merged when the live carry-over queue, the datastore image, the cursor, the tip, the armed error and the oracle's memory (released set, handed-over set, feature flags, clauses already violated) agree — the sequencer has no other state; distinct = distinct merged states summed over configurations. Part 2 (crowded DA heights, crowded_test.go): the retrieval batch size b of types.RetrieveWithHelpers is measured (largest id list of one blob-fetch call for a height with 1024 transactions); then for every configuration (height layout from bounds.crowded.layouts with N transactions at the crowded height, N from bounds.crowded.N × transaction-size pattern × MaxBytes = k·unit for k from bounds.crowded.txs_per_answer_k × maxHeightDrift × tip mode) the real based.Sequencer (reading the DA double through the real helper) is called with the manager's cursor until H+2 calls in a row bring nothing new: once without fault and once for EVERY DA operation q of the fault-free run (listing call or any blob-fetch chunk) with operation q failing; in every such run a restart (NewSequencer on the datastore image, cursor kept) is tried before EVERY call: if the restarted sequencer's carry-over queue (transactions and ids; the datastore and the cursor are equal by construction) equals the live one the two are merged, otherwise the restarted one is continued in lockstep to the end with its own oracle and its answers are compared with the live ones; oracle as in part 1 plus batch-data-ids; evaluations = part-1 executions + part-2 runs + part-2 restart positions; distinct adds the part-2 outcome classes",
 		Exhaustive: len(caps) == 0, Caps: caps,
-		Bounds: map[string]any{"depth": depth, "heights": heights, "txs_per_height": "0..3", "total_txs_max": maxTotal, "tx_sizes": txSizes, "max_bytes": limits, "drift": drifts, "configurations": len(cfgs), "da_contents": len(contents), "states_per_level": perLevel, "actions": []string{"next", "tip+1", "fail-next-retrieval", "restart"}},
+		Bounds: map[string]any{"depth": depth, "heights": heights, "txs_per_height": "0..3", "total_txs_max": maxTotal, "tx_sizes": txSizes, "max_bytes": limits, "drift": drifts, "configurations": len(cfgs), "da_contents": len(contents), "states_per_level": perLevel, "actions": []string{"next", "tip+1", "fail-next-retrieval", "restart"},
+			"crowded": map[string]any{
+				"retrieval_batch_size_b": p2.b, "b_how": p2.bHow, "layouts": p2.shapes, "N": p2.ns, "tx_size_patterns": []string{"every transaction 4 bytes (unit 4)", "3..7 bytes cycling with the position (unit 7)"},
+				"txs_per_answer_k": p2.ks, "drift": p2.drifts, "tip_modes": []string{"all heights visible from the start", "tip starts at 1, +1 after every call that brought nothing new"},
+				"configurations": p2.configs, "faults_per_run": "0 or 1, at every DA operation of the fault-free run", "restarts_per_run": "0 or 1, before every call",
+			}},
 		Extra: map[string]any{
 			"violating_histories_by_clause_and_tags": byClass,
 			"histories_with_nil_nil_answer":          nilNil,
 			"nil_nil_example":                        nilNilEx,
-			"note_nil_nil":                           "GetNextBatch answers (nil, nil) when it has nothing to release; not a clause of C20 (the block manager tolerates it), counted only",
+			"crowded_heights": map[string]any{
+				"configurations_completed": p2.configsDone, "runs": p2.runs, "runs_with_an_injected_retrieval_error": p2.faultRuns, "GetNextBatch_calls": p2.calls,
+				"restart_positions_merged_with_the_live_sequencer": p2.merged, "restart_positions_continued_separately": p2.diverged, "restart_positions_dropped": p2.dropped,
+				"max_blob_fetch_calls_per_listing_call": p2.maxGets, "max_calls_in_a_run": p2.maxCalls, "max_txs_at_one_height": p2.maxN, "nil_nil_answers": p2.nilNil, "wall_s": p2.wall.Seconds(), "cpu_s": p2.cpu.Seconds(),
+			},
+			"note_nil_nil": "GetNextBatch answers (nil, nil) when it has nothing to release; not a clause of C20 (the block manager tolerates it), counted only",
 		},
 	})
 }
